@@ -46,6 +46,18 @@ func genKey(rng *cq.Rng, pool [][]byte) []byte {
 		return bytes.Repeat([]byte{0xff}, 1+rng.Intn(12))
 	case 3:
 		return bytes.Repeat([]byte{0}, 1+rng.Intn(4))
+	case 5, 6:
+		// keys shaped like the ones the trees store: hyper position = height(2) ‖ index(32), history position = index(8) ‖ height(2)
+		if rng.Intn(2) == 0 {
+			k := make([]byte, 34)
+			k[1] = byte(rng.Intn(4)) * 4
+			k[2], k[3] = byte(rng.Intn(3)), byte(rng.Intn(256))
+			return k
+		}
+		k := make([]byte, 10)
+		k[7] = byte(rng.Intn(40))
+		k[9] = byte(rng.Intn(3))
+		return k
 	case 4:
 		if len(pool) > 0 { // extension of an existing key
 			return append(append([]byte{}, pool[rng.Intn(len(pool))]...), byte(rng.Intn(3)))
